@@ -28,14 +28,16 @@ QUICK = tier == "quick"
 v = common.Verdict("C02")
 d = common.scratch("c02-")
 
-ALL_MAXLEN = 6 if QUICK else 7
+ALL_MAXLEN = 5 if QUICK else 7
 NS = {"all": 16, "wf": 4 if QUICK else 16, "mut": 2 if QUICK else 16, "len": 1}
 DEEP = not QUICK
-TCP_SAMPLE = 500 if QUICK else 4000
+TCP_SAMPLE = {"all": 250, "wf": 150, "mut": 200} if QUICK else {"all": 2000, "wf": 1000, "mut": 1500}
 B2_PIPELINES = 60 if QUICK else 2000
-MAX_DEATHS_PER_SLICE = 25 if QUICK else 60
+MAX_DEATHS_PER_SLICE = 10 if QUICK else 30
+MAX_TCP_RESTARTS = 30
 AS_LIMIT = 2 << 30           # address-space limit of the respcheck child (a declared bulk length of 2^31 cannot be allocated)
 
+CHILD_ENV = dict(os.environ, GOMAXPROCS="1")     # one parser goroutine + one consumer per run: a single P avoids cross-thread wake-ups
 tool = ks.build_tool("respcheck")
 server.build_server()
 t_build = time.time() - v.t0
@@ -101,7 +103,7 @@ def run_slice(job):
     while True:
         open(progress, "wb").write(struct.pack("<4Q", index, offset, 0, 0))
         p = subprocess.run([tool, "-in", vecfile, "-offset", str(offset), "-index", str(index), "-progress", progress, "-seed", str(SEED)],
-                           stdout=subprocess.PIPE, stderr=subprocess.PIPE, preexec_fn=limit, timeout=3000)
+                           stdout=subprocess.PIPE, stderr=subprocess.PIPE, preexec_fn=limit, timeout=3000, env=CHILD_ENV)
         summ = None
         for line in p.stdout.decode("utf-8", "replace").splitlines():
             if line.startswith("FAIL "):
@@ -136,7 +138,7 @@ def run_slice(job):
             detail, head = death_signature(err)
             out["deaths"].append({"vec": vec, "detail": detail, "head": head, "rc": p.returncode, "stderr": err[:1500], "index": idx})
         index, offset = idx, off + ln
-        if len(out["deaths"]) >= MAX_DEATHS_PER_SLICE:
+        if len(out["deaths"]) >= MAX_DEATHS_PER_SLICE and mode != "len":
             out["truncated"] = True      # the tree is failing already; do not spend the budget on thousands of restarts
             break
     out["t_check"] = time.time() - t0
@@ -210,24 +212,39 @@ class Live:
         self.restarts = 0
 
     def start(self):
-        self.srv = server.Server()
-        self.other = self.srv.client(timeout=3.0)
-        if self.other.cmd("PING") != ("+", b"PONG"):
-            common.die_infra("fresh server does not answer PING")
+        last = None
+        for attempt in range(4):     # other checks run servers on random ports of this machine at the same time
+            try:
+                self.srv = server.Server()
+                self.other = self.srv.client(timeout=3.0)
+                if self.other.cmd("PING") == ("+", b"PONG"):
+                    return
+                last = "unexpected reply to PING"
+            except (OSError, ConnectionError) as e:
+                last = repr(e)
+            try:
+                self.srv.stop()
+            except Exception:
+                pass
+        common.die_infra("fresh server does not answer PING: %s" % last)
+
+    def dead(self):
+        detail, head = death_signature(self.srv.tail(6000))
+        return ("panic", detail, "server process exited (rc=%s): %s" % (self.srv.p.returncode, head))
 
     def check(self):
-        """None if everything is fine, otherwise a description of what broke."""
+        """None if everything is fine, otherwise (kind, detail, text) of what broke."""
         if not self.srv.alive():
-            return "server process exited (rc=%s): %s" % (self.srv.p.returncode, self.srv.tail(500))
+            return self.dead()
         try:
             r = self.other.cmd("PING", timeout=3.0)
             if r != ("+", b"PONG"):
-                return "the innocent connection got %r for PING" % (r,)
+                return ("wrong-delivery", "tcp: another connection disturbed", "the innocent connection got %r for PING" % (r,))
         except Exception as e:
-            time.sleep(0.2)
+            time.sleep(0.3)
             if not self.srv.alive():
-                return "server process exited (rc=%s): %s" % (self.srv.p.returncode, self.srv.tail(500))
-            return "the innocent connection no longer answers PING (%s)" % e
+                return self.dead()
+            return ("hang", "tcp: another connection no longer answers", "the innocent connection no longer answers PING (%s)" % e)
         return None
 
     def restart(self):
@@ -289,7 +306,7 @@ def tcp_vector(live, vec, r):
                 problem = ("no-error", "tcp: malformed item neither answered with an error nor closed",
                            {"replies": [repr(x) for x in replies], "commands_before": len(cmds)})
         else:
-            c.s.settimeout(0.02)
+            c.s.settimeout(0.003)
             try:
                 c.s.recv(65536)
             except OSError:
@@ -298,7 +315,7 @@ def tcp_vector(live, vec, r):
         c.close()
     bad = live.check()
     if bad:
-        return ("panic" if "exited" in bad else "hang", "tcp: " + bad.split(":")[0].split("(")[0].strip(), {"tcp": bad})
+        return (bad[0], bad[1], {"tcp": bad[2]})
     return problem
 
 
@@ -310,6 +327,7 @@ for s in slices:
     for dth in s["deaths"]:
         crashers.setdefault((label(dth["vec"]), dth["detail"]), dth)
 notes = []
+confirmed_labels = set()
 for (lab, detail), dth in sorted(crashers.items()):
     res = None
     for attempt in range(2):
@@ -319,7 +337,8 @@ for (lab, detail), dth in sorted(crashers.items()):
             break
     if res and res[0] in ("panic", "hang"):
         tcp_confirmed += 1
-        v.report({"branch": lab, "kind": res[0], "detail": detail},
+        confirmed_labels.add(lab)
+        v.report({"branch": lab, "kind": res[0], "detail": res[1] if res[0] == "panic" else detail},
                  {"stream": dth["vec"]["s"], "text": text(dth["vec"]["s"]), "in_process": {"death": dth["head"], "stderr": dth["stderr"]}, "tcp": res[2],
                   "how": "write these bytes to a connection of the server"},
                  what="stream %s kills the parser goroutine (%s); on the real server over TCP: %s" % (text(dth["vec"]["s"]), dth["head"], res[2]["tcp"]))
@@ -332,27 +351,34 @@ for (lab, detail), dth in sorted(crashers.items()):
 
 # (b) every declared-length vector + a seeded sample of all the others
 pool = []
+per_class = {}
+for s in slices:
+    per_class[s["mode"]] = per_class.get(s["mode"], 0) + s["vectors"]
 for s in slices:
     with open(s["file"]) as f:
-        lines = f.readlines()
+        lines = [l for l in f if l.startswith('"')]
     if s["mode"] == "len":
         pick = lines
     else:
-        k = max(1, TCP_SAMPLE * len(lines) // max(1, tot["vectors"]) + 1)
+        k = TCP_SAMPLE[s["mode"]] * len(lines) // max(1, per_class[s["mode"]]) + 1
         pick = rng.sample(lines, min(k, len(lines)))
     for l in pick:
-        if l.startswith('"'):
-            pool.append(json.loads(json.loads(l)[4:]))
+        pool.append(json.loads(json.loads(l)[4:]))
 rng.shuffle(pool)
 tcp_by_term = {}
-known_dead = set(lab for (lab, _d) in crashers)
 for vec in pool:
+    if label(vec) in confirmed_labels:
+        continue          # this class already has a confirmed crash; do not restart the server for every sibling
+    if live.restarts > MAX_TCP_RESTARTS:
+        print("NOTE: TCP sample phase cut short after %d server deaths (the tree is failing; repair the crashers first)" % live.restarts, flush=True)
+        break
     res = tcp_vector(live, vec, rng)
     tcp_checks += 1
     tcp_by_term[vec["t"]] = tcp_by_term.get(vec["t"], 0) + 1
     if res:
         if res[0] in ("panic", "hang"):
             tcp_confirmed += 1
+            confirmed_labels.add(label(vec))
             live.restart()
         v.report({"branch": label(vec), "kind": res[0], "detail": res[1]},
                  {"stream": vec["s"], "text": text(vec["s"]), "expected_commands": vec["c"], "term": vec["t"], "tcp": res[2],
@@ -476,8 +502,8 @@ for i in range(B2_PIPELINES):
     f = b2_pipeline(r2, i)
     bad = live.check()
     if bad:
-        v.report({"branch": "resp.pipeline.tcp", "kind": "panic" if "exited" in bad else "hang", "detail": bad.split(":")[0][:80]}, {"seed": SEED, "pipeline": i, "tcp": bad, "first": f},
-                 what="random binary pipeline #%d (seed %d): %s" % (i, SEED, bad))
+        v.report({"branch": "resp.pipeline.tcp", "kind": bad[0], "detail": bad[1]}, {"seed": SEED, "pipeline": i, "tcp": bad[2], "first": f},
+                 what="random binary pipeline #%d (seed %d): %s" % (i, SEED, bad[2]))
         live.restart()
     elif f:
         b2_fail += 1
